@@ -141,6 +141,52 @@ theorem C18_write (s : Stream) (hs : s.closed = false) (closefd compatible bodyR
   unfold writeSession
   cases closefd <;> cases compatible <;> cases bodyRaises <;> simp [Stream.close, Stream.call, hs]
 
+/-- **writing EVLRs too** (LAS 1.4): points written or not, body raising afterwards or not: closed iff closefd -/
+theorem C18_write_evlrs (s : Stream) (hs : s.closed = false) (closefd pointsWritten bodyRaises : Bool) :
+    (writeSessionEvlrs s closefd pointsWritten bodyRaises).closed = closefd := by
+  unfold writeSessionEvlrs
+  cases closefd <;> cases pointsWritten <;> simp [Stream.close, Stream.call, hs]
+
+/-- **`laspy.read`**: opening fails, reading fails after the header was accepted (no point source, or the source raises
+    inside the point block), or everything is read: the stream is closed iff closefd -/
+theorem C18_read_las (s : Stream) (hs : s.closed = false) (f : FileInfo) (closefd : Bool) (late : LateFailure) :
+    (readLas s f closefd late).1.closed = closefd := by
+  obtain ⟨he, hk⟩ := C18_read s hs f closefd true [.all]
+  unfold readLas
+  cases ho : openRead s f closefd true with
+  | error s' => exact he s' ho
+  | ok r =>
+    have hall := hk r ho
+    simp only [runR] at hall
+    have hr : r.stream.closed = false ∧ r.closefd = closefd := by
+      have hh := readHeader_closed s f true
+      unfold openRead at ho
+      cases hq : readHeader s f true with
+      | mk s1 rest =>
+        obtain ⟨fl, ld⟩ := rest
+        rw [hq] at ho hh
+        cases fl with
+        | none => injection ho with ho; subst ho; exact ⟨by rw [hh, hs], rfl⟩
+        | laspy => cases ho
+        | other => cases ho
+    simp only
+    split
+    · exact hall
+    · cases late with
+      | none => exact hall
+      | source =>
+        unfold closeReader
+        rw [hr.2]
+        cases closefd
+        · simp only [Bool.false_eq_true, if_false]; exact hr.1
+        · simp [Stream.close]
+      | read =>
+        unfold closeReader
+        simp only [hr.2]
+        cases closefd
+        · simp only [Bool.false_eq_true, if_false]; split <;> exact hr.1
+        · simp [Stream.close]
+
 /-- `LasData.write` never closes the caller's stream -/
 theorem C18_lasdata_write (s : Stream) : (lasDataWrite s).closed = s.closed := by
   unfold lasDataWrite writeSession
